@@ -376,6 +376,14 @@ func main() {
 			if got := vf.MultisetKVs(work); got != before {
 				k.Violate("caller-slice-lost-values", "NewSet", fmt.Sprintf("before %s\nafter  %s", before, got), nil)
 			}
+			// the same caller-owned slice (now rearranged in place) used for construction again, and again: the
+			// value supplied last still wins every time
+			for again := 0; again < 2; again++ {
+				sAgain := attribute.NewSet(work...)
+				if !checkSetAgainstModel(k, "NewSet on the same slice again", &sAgain, m) {
+					return
+				}
+			}
 			if !checkSetAgainstModel(k, "NewSet", &s, m) {
 				return
 			}
